@@ -3,12 +3,11 @@
    accepted by the property (ClientSvc)?  Product: an op is executed by the Impl model, giving the
    event record the adapter would log; the property must accept it (ClientSvcGroup!Accept).
 
-   The answer for the unrestricted environment is NO (six defect classes, see notes/C58.md).  `Assume`
+   The answer for the unrestricted environment is NO (see notes/C58.md; two more restrictions, A "no whenConnected
+   before the first start" and B "no loss while preparing", were needed before the repairs 6c34093 / cfaca27).  `Assume`
    is a set of environment restrictions; TLC shows that under all of them the coded machine is
    accepted (for the bounds), and that each one is necessary: dropping it yields a counterexample,
    which the harness replays on the real ClientService.
-     "A"  whenConnected is not called before the first startService
-     "B"  a connection is not lost while prepareConnection is pending
      "C"  prepareConnection never fails
      "D"  stopService is not called while prepareConnection is pending
      "E"  callbacks of whenConnected / stopService Deferreds call nothing but startService        *)
@@ -27,11 +26,11 @@ ThensA == IF "E" \in Assume THEN {"none", "start"} ELSE {"none", "start", "stop"
 OpsOf(m) ==
     {O("start")}
     \cup (IF "D" \in Assume /\ m.hooks \cap m.conns # {} THEN {} ELSE {[O("stop") EXCEPT !.then = t] : t \in ThensA})
-    \cup (IF "A" \in Assume /\ m.st = "Init" THEN {} ELSE {[O("when") EXCEPT !.k = k, !.then = t] : k \in 0..2, t \in ThensA})
+    \cup {[O("when") EXCEPT !.k = k, !.then = t] : k \in (0 - 1)..2, t \in ThensA}
     \cup (IF m.att # 0 THEN {O("succeed"), O("fail")} ELSE {})
     \cup {[O("prepok") EXCEPT !.c = c] : c \in m.hooks}
     \cup (IF "C" \in Assume THEN {} ELSE {[O("prepfail") EXCEPT !.c = c] : c \in m.hooks})
-    \cup {[O("drop") EXCEPT !.c = c] : c \in (IF "B" \in Assume THEN m.conns \ m.hooks ELSE m.conns)}
+    \cup {[O("drop") EXCEPT !.c = c] : c \in m.conns}
     \cup {[O("adv") EXCEPT !.d = d] : d \in 1..2}
 JOp(o) == CASE o.op \in {"start", "succeed", "fail"} -> <<o.op>>
             [] o.op = "stop" -> <<"stop", o.then>>
